@@ -12,6 +12,11 @@
 //   wd    -> a REAL TCP connection from that peer's address is accepted (`accept_connection`) and its
 //            `PeerSession::run` runs to the end (the client closes): the tail of `run` feeds PeerWithdrawn
 //   timer -> `gr_selection_deferral_timer_expired`
+//   gdown -> the REAL `PeerSession::finish_session(IoError)` of a session that holds one Source per
+//            family and the GR families `est` announced: `unregister_peer(.., drop, stale)` -> `restale`
+// and the table mutators a GR helper / the next-hop tracker use, called on the real TableManager:
+//   stale / llgr / purge / lpurge / nhv -> `unregister_peer(.., [], [f])`, `mark_llgr_stale`,
+//            `drop_stale_families`, `drop_llgr_stale_families`, `update_nexthop_validity`
 // Observed after each step: the state tag and `pending` of the machine in `Global.selection_deferral`
 // (through gr.rs's accessor), `selection_deferral.is_some()`, `selection_deferral_timer.is_some()`,
 // the per-family `Rib.deferring` flags (probe insert), every distributed change (with best_changed /
@@ -98,6 +103,12 @@ enum Ev {
     Ins(u64, u64, u64),
     Rm(u64, u64, u64),
     Drop(u64, u64),
+    Stale(u64, u64),
+    Llgr(u64, u64),
+    Purge(u64, u64),
+    Lpurge(u64, u64),
+    Nhv(u64, bool),
+    Gdown(u64),
 }
 
 fn ev_of(t: &Term) -> Option<Ev> {
@@ -121,6 +132,19 @@ fn ev_of(t: &Term) -> Option<Ev> {
             small(&l[3], MAX_PFX)?,
         )),
         ("drop", 3) => Some(Ev::Drop(small(&l[1], MAX_PEER)?, small(&l[2], MAX_FAM)?)),
+        ("stale", 3) => Some(Ev::Stale(small(&l[1], MAX_PEER)?, small(&l[2], MAX_FAM)?)),
+        ("llgr", 3) => Some(Ev::Llgr(small(&l[1], MAX_PEER)?, small(&l[2], MAX_FAM)?)),
+        ("purge", 3) => Some(Ev::Purge(small(&l[1], MAX_PEER)?, small(&l[2], MAX_FAM)?)),
+        ("lpurge", 3) => Some(Ev::Lpurge(small(&l[1], MAX_PEER)?, small(&l[2], MAX_FAM)?)),
+        ("nhv", 3) => Some(Ev::Nhv(
+            small(&l[1], MAX_PEER)?,
+            match l[2].as_atom()? {
+                "t" => true,
+                "f" => false,
+                _ => return None,
+            },
+        )),
+        ("gdown", 2) => Some(Ev::Gdown(small(&l[1], MAX_PEER)?)),
         _ => None,
     }
 }
@@ -271,7 +295,10 @@ struct World {
     global: GlobalHandle,
     tables: TableHandle,
     rx: mpsc::UnboundedReceiver<ToPeerEvent>,
-    sources: Vec<Arc<table::Source>>,
+    /// one `Source` per (peer, family), as a session has (`on_established`)
+    sources: Vec<Vec<Arc<table::Source>>>,
+    /// sessions that are up: peer -> GR families negotiated (what `est` said)
+    up: FnvHashMap<u64, Vec<u64>>,
     probe: Arc<table::Source>,
     /// fed the same inputs as the installed machine; only its outputs are read
     shadow: Option<RestartingDeferral>,
@@ -462,7 +489,10 @@ async fn run_c11(case: Case) -> String {
         global,
         tables,
         rx,
-        sources: (0..MAX_PEER).map(|i| mk_source(peer_addr(i))).collect(),
+        sources: (0..MAX_PEER)
+            .map(|i| (0..MAX_FAM).map(|_| mk_source(peer_addr(i))).collect())
+            .collect(),
+        up: FnvHashMap::default(),
         probe: mk_source(IpAddr::V4(Ipv4Addr::new(10, 0, 0, 251))),
         shadow: None,
         rbit_mismatch: false,
@@ -498,6 +528,7 @@ async fn run_c11(case: Case) -> String {
     for ev in &case.evs {
         match ev {
             Ev::Est(p, fs) => {
+                w.up.insert(*p, fs.clone());
                 let addr = peer_addr(*p);
                 let fams: Vec<Family> = fs.iter().map(|f| fam_of(*f)).collect();
                 let ctx = w.global.read().await.peers.get(&addr).unwrap().context.clone();
@@ -528,6 +559,7 @@ async fn run_c11(case: Case) -> String {
                 steps.push(obs(&mut w, &outs, true).await);
             }
             Ev::Wd(p) => {
+                w.up.remove(p);
                 let addr = peer_addr(*p);
                 if !real_connection_ends(&mut w, addr).await {
                     // no connection could be made from that address: feed the machine as `run` does
@@ -554,7 +586,7 @@ async fn run_c11(case: Case) -> String {
             Ev::Ins(p, f, n) => {
                 let nh = bgp::Nexthop::V4(Ipv4Addr::new(10, 0, 0, 1 + *p as u8));
                 w.tables.insert_route(
-                    w.sources[*p as usize].clone(),
+                    w.sources[*p as usize][*f as usize].clone(),
                     fam_of(*f),
                     packet::PathNlri::new(net_of(*f, *n)),
                     Some(nh),
@@ -566,7 +598,7 @@ async fn run_c11(case: Case) -> String {
             }
             Ev::Rm(p, f, n) => {
                 w.tables.remove_route(
-                    w.sources[*p as usize].clone(),
+                    w.sources[*p as usize][*f as usize].clone(),
                     fam_of(*f),
                     packet::PathNlri::new(net_of(*f, *n)),
                     None,
@@ -576,6 +608,72 @@ async fn run_c11(case: Case) -> String {
             }
             Ev::Drop(p, f) => {
                 w.tables.drop_families(peer_addr(*p), &[fam_of(*f)]);
+                steps.push(obs(&mut w, &[], false).await);
+            }
+            // ---- the GR-helper / next-hop mutators, which may hit a family that is deferred ----
+            Ev::Stale(p, f) => {
+                w.tables.unregister_peer(peer_addr(*p), &[], &[fam_of(*f)]);
+                steps.push(obs(&mut w, &[], false).await);
+            }
+            Ev::Llgr(p, f) => {
+                w.tables.mark_llgr_stale(peer_addr(*p), &[fam_of(*f)]);
+                steps.push(obs(&mut w, &[], false).await);
+            }
+            Ev::Purge(p, f) => {
+                w.tables.drop_stale_families(peer_addr(*p), &[fam_of(*f)]);
+                steps.push(obs(&mut w, &[], false).await);
+            }
+            Ev::Lpurge(p, f) => {
+                w.tables.drop_llgr_stale_families(peer_addr(*p), &[fam_of(*f)]);
+                steps.push(obs(&mut w, &[], false).await);
+            }
+            Ev::Nhv(p, ok) => {
+                w.tables
+                    .update_nexthop_validity(IpAddr::V4(Ipv4Addr::new(10, 0, 0, 1 + *p as u8)), *ok);
+                steps.push(obs(&mut w, &[], false).await);
+            }
+            Ev::Gdown(p) => {
+                // The established session of a helper ends by an I/O error while we are (possibly)
+                // still deferring: the REAL `PeerSession::finish_session` decides GR eligibility and
+                // calls `unregister_peer(addr, drop_families, stale_families)`.  The session holds
+                // what `on_established` / `apply_outputs(SessionEstablished)` had given it: one Source
+                // per family, and the GR negotiation result `est` announced.
+                if let Some(fs) = w.up.remove(p) {
+                    let addr = peer_addr(*p);
+                    let ctx = w.global.read().await.peers.get(&addr).unwrap().context.clone();
+                    let mut s = PeerSession::new_for_test(addr, ctx, w.tables.clone());
+                    for f in 0..MAX_FAM {
+                        s.source
+                            .insert(fam_of(f), w.sources[*p as usize][f as usize].clone());
+                    }
+                    // (negotiate_gr filters the local, duplicate-free family list)
+                    let mut fams: Vec<Family> = Vec::new();
+                    for f in &fs {
+                        if !fams.contains(&fam_of(*f)) {
+                            fams.push(fam_of(*f));
+                        }
+                    }
+                    s.negotiated_gr = if fams.is_empty() {
+                        None
+                    } else {
+                        Some(NegotiatedGr {
+                            families: fams,
+                            restart_time: Duration::from_secs(120),
+                            notification_enabled: false,
+                        })
+                    };
+                    let disconnect = DisconnectInfo {
+                        role: s.role,
+                        remote_addr: addr,
+                        export_map: ExportMap::default(),
+                        negotiated_gr: None,
+                        negotiated_llgr: None,
+                    };
+                    let _ = s
+                        .finish_session(crate::fsm::SessionDownReason::IoError, &w.global, disconnect)
+                        .await;
+                    settle().await;
+                }
                 steps.push(obs(&mut w, &[], false).await);
             }
         }
